@@ -725,6 +725,29 @@ func cmdCheck(args []string) {
 			}
 		}
 	}
+	// unit corpus of the engine itself (thorough tier): tiny functions with known verdicts (shadowing,
+	// aliasing, loop cuts, frames, panics, machine arithmetic); a mismatch means the engine is broken
+	var unitRes map[string]interface{}
+	if *tier == "thorough" {
+		unitDir := "/verif/engine/testdata/unit"
+		if _, err := os.Stat(unitDir); err == nil {
+			t1 := time.Now()
+			self, _ := os.Executable()
+			ctx, cancel := context.WithTimeout(context.Background(), 10*time.Minute)
+			cmd := exec.CommandContext(ctx, self, "verify", "-expect", "-spec", *specDir, "-dir", unitDir, "-pkgs", ".")
+			cmd.Env = append(os.Environ(), "GOVC_REPO=")
+			out, err := cmd.CombinedOutput()
+			cancel()
+			nOK, nBad := strings.Count(string(out), "UNIT-OK "), strings.Count(string(out), "UNIT-MISMATCH ")
+			unitRes = map[string]interface{}{"dir": unitDir, "functions": nOK + nBad, "mismatches": nBad, "wall_s": time.Since(t1).Seconds()}
+			if err != nil || nBad > 0 || nOK == 0 {
+				os.MkdirAll(replayDir, 0o755)
+				rf := filepath.Join(replayDir, "engine.unit.txt")
+				os.WriteFile(rf, []byte(fmt.Sprintf("property: %s\nengine unit corpus: %d ok, %d mismatches (err=%v)\noutput:\n%s\n", cfg.ID, nOK, nBad, err, string(out))), 0o644)
+				violations = append(violations, fmt.Sprintf("VIOLATION property=%s replay=%s obligation=engine.unit (verdict mismatch in the unit corpus of the verifier) no-failing-input-found", cfg.ID, rf))
+			}
+		}
+	}
 	// dedupe violations (same obligation on several paths)
 	violations = uniq(violations)
 	knownLines = uniq(knownLines)
@@ -774,12 +797,13 @@ func cmdCheck(args []string) {
 		"solver_time_s":            float64(solverMs) / 1000,
 		"covers":                   covers,
 		"samples":                  samples,
-		"dropped_by_translation":   append([]string{"error message text", "events, gas, telemetry, logging", "termination", "integer overflow of machine arithmetic (integers are mathematical; narrowing conversions are exact)"}, cfg.Dropped...),
+		"dropped_by_translation":   append([]string{"error message text", "events, gas, telemetry, logging", "termination", "integer overflow of machine arithmetic (integers are mathematical; narrowing conversions and unsigned subtraction wrap exactly)"}, cfg.Dropped...),
 		"explanation":              cfg.Explain,
 		"known_findings_reported":  knownLines,
 		"bounded_checks":           boundedRes,
 		"retried_with_longer_budget": nRetried,
 		"lean_lemmas":              leanRes,
+		"engine_unit_corpus":       unitRes,
 	}
 	ev := map[string]interface{}{
 		"property_id": cfg.ID,
@@ -787,7 +811,7 @@ func cmdCheck(args []string) {
 		"seed":        seed,
 		"level":       level,
 		"coverage":    cov,
-		"assumptions": append([]string{"machine arithmetic treated as mathematical except conversions", "request messages are tree-shaped (no aliasing between distinct message objects / slices)"}, cfg.Assumes...),
+		"assumptions": append([]string{"machine arithmetic treated as mathematical except narrowing conversions and unsigned subtraction (both wrap exactly)", "the parameters of a function under contract do not alias each other at entry (request messages are tree-shaped); a write to an object reachable from a parameter must be declared (`modifies *<path>`, checked at every return) and a call through a contract is refused when it passes a modified object twice", "append never shares the backing array of its first argument"}, cfg.Assumes...),
 		"wall_s":      wall,
 		"violations":  len(violations),
 	}
